@@ -11,7 +11,7 @@ import nplib
 from nplib import *  # noqa
 
 
-def asym_psf(seed, P=15, fwhm=4.0):
+def asym_psf(seed, P=25, fwhm=4.0):   # P=25: the stamp edge is at > 5 sigma, so truncating it leaks < 1e-6 to the Nyquist frequency (P=15 leaked 1e-5)
     """well-sampled PSF of arbitrary asymmetric shape: sum of three offset Gaussians"""
     rng = np.random.default_rng(seed)
     x = np.arange(P) - (P - 1) / 2
